@@ -8,7 +8,10 @@
  4. property-level oracle on the real code: original vs compiled anf.transform output, run
     with operands whose every operation is a logged event (result, event order, exceptions),
     shape of the output (every position the configuration names holds a name/literal,
-    temporaries assigned once), lazy constructs rejected or left untouched
+    temporaries assigned once), lazy constructs rejected or left untouched; hygiene stream: variables of
+    the program spelled like the identifiers the transformer itself uses (template placeholders, its own
+    variables; harvested from the tree under test) -- same judgement, plus: renaming the variables of the
+    input commutes with anf.transform (Coq: anf_renaming_invariant)
 """
 import ast
 import copy
@@ -149,6 +152,8 @@ def shape_failures(orig, out, config, hoisted):
 def classify(orig, out, config, what, detail=None):
     """Narrow classifiers of the known findings.  -> finding id or None"""
     from malt.pyct.common_transformers import anf
+    if what == 'hygiene':
+        return None        # no known finding depends on how a variable is spelled (gensym-shaped names are not in the pool)
     # a slice extracted into an assignment (`tmp = 1:2`): does not compile
     if out is not None:
         for n in ast.walk(out):
@@ -243,18 +248,56 @@ def lazy_positions(node, config):
     return out
 
 
-def oracle(src, config, seed, tree=None):
+HYGIENE_WHAT = ('the output of anf.transform depends on how a variable of the program is spelled: renaming variables of the '
+                'input (to identifiers the transformer uses itself, e.g. the placeholder names of its code templates) '
+                'does not commute with the transformation')
+
+
+def plain_dump(node):
+    """ast.dump over the fields of the node classes only (malt's annotations add per-instance fields that
+    hold qualified-name objects of the text they were computed on)"""
+    if isinstance(node, ast.AST):
+        return '%s(%s)' % (type(node).__name__, ', '.join('%s=%s' % (f, plain_dump(getattr(node, f, None)))
+                                                          for f in type(node)._fields))
+    if isinstance(node, list):
+        return '[%s]' % ', '.join(plain_dump(x) for x in node)
+    return repr(node)
+
+
+def hygiene_failures(src, config, res, renamed_from):
+    """src = rename(base, mapping), mapping injective onto names foreign to base: anf.transform(src) must be
+    rename(anf.transform(base)) -- accepted / rejected alike.  -> list of failures"""
+    base, mapping = renamed_from
+    rb = run_impl(base, config)
+    if rb[0] != res[0]:
+        return [('hygiene', HYGIENE_WHAT, {'renamed_from': base, 'mapping': mapping,
+                                           'outcome_before_renaming': rb[0] if rb[0] == 'ok' else list(rb),
+                                           'outcome_after_renaming': res[0] if res[0] == 'ok' else list(res)})]
+    if rb[0] != 'ok':
+        return []
+    want = G.rename_vars(rb[1], mapping)
+    if plain_dump(want) != plain_dump(res[1]):
+        return [('hygiene', HYGIENE_WHAT, {'renamed_from': base, 'mapping': mapping,
+                                           'transformed_before_renaming': unparse(rb[1]),
+                                           'expected_after_renaming': unparse(want), 'observed': unparse(res[1])})]
+    return []
+
+
+def oracle(src, config, seed, tree=None, renamed_from=None):
     """Judges the property text on the real code for one program and configuration.
     -> (status, failures) ; status in accepted/rejected ; failures = list of (kind, what, detail)
-    tree: transform this object (whose text is src) instead of a freshly parsed one"""
+    tree: transform this object (whose text is src) instead of a freshly parsed one
+    renamed_from: (base program, {old variable: new variable}) when src is a renaming of another program"""
     orig = ast.parse(src).body[0]
     res = run_impl(src, config, tree)
     fails = []
+    if renamed_from is not None:
+        fails += hygiene_failures(src, config, res, renamed_from)
     if res[0] == 'crash':
-        return 'crashed', [('crash', 'anf.transform raised %s: %s' % (res[1], res[2]), '')], None
+        return 'crashed', fails + [('crash', 'anf.transform raised %s: %s' % (res[1], res[2]), '')], None
     lazies = lazy_positions(orig, config)
     if res[0] == 'err':
-        return 'rejected', [], None
+        return 'rejected', fails, None
     out, hoisted = res[1], res[2]
     for n in ast.walk(orig):
         if isinstance(n, (ast.ListComp, ast.SetComp, ast.DictComp, ast.GeneratorExp)) or \
@@ -372,20 +415,70 @@ def _programs(run):
         g = G.Gen(rnd, 'model', lazy=0.25, maxdepth=rnd.choice([2, 3]))
         cfg, cd = dsel[rnd.randrange(len(dsel))] if rnd.random() < 0.5 else G.gen_config(rnd, anf)
         progs.append(('lazy', g.program(nstmts=rnd.randint(1, 2), depth=rnd.choice([0, 1])), cfg, cd))
+    # hygiene: variables spelled like the identifiers the transformer uses itself.  Every template placeholder
+    # of the anchor files, in every role (fixed shapes) and in random programs where it is read inside a hoisted
+    # operand; all placeholders at once; then random programs x random configurations with 1-4 variables renamed
+    # to placeholders or to any other identifier of the implementation.
+    hrnd = random.Random(run.seed * 15485863 + 18)
+    place, other = G.internal_names(vlib.REPO)
+    run.extra['hygiene_names'] = {'placeholders': place, 'other_identifiers': len(other)}
+    n_each, n_hyg = (8, 500) if thorough else (3, 120)
+
+    def add(base, mapping, cfg, cd):
+        src = G.rename_vars(base, mapping)
+        if src not in HYGIENE:
+            HYGIENE[src] = (base, mapping)
+            progs.append(('hygiene', src, cfg, cd))
+
+    def operand_program(g):
+        for _ in range(30):
+            base = g.program(depth=hrnd.choice([0, 1, 2]))
+            names = G.operand_names(base)
+            if names:
+                return base, names
+        return base, G.PARAMS[:1]
+    for nm in place[:24]:
+        for body in G.HYGIENE_TEMPLATES:
+            add('def fn(%s):\n  %s\n' % (', '.join(G.PARAMS), body.replace('V', 'y')), {'y': nm}, None, 'default')
+        for _ in range(n_each):
+            base, names = operand_program(G.Gen(hrnd, 'model', lazy=0.0, maxdepth=hrnd.choice([2, 3])))
+            add(base, {hrnd.choice(names): nm}, None, 'default')
+    for _ in range(n_hyg):
+        g = G.Gen(hrnd, hrnd.choice(['model', 'model', 'wide']), lazy=0.0, maxdepth=hrnd.choice([1, 2, 2, 3]), walrus=0.04)
+        base, names = operand_program(g)
+        used = sorted({n.id for n in ast.walk(ast.parse(base)) if isinstance(n, ast.Name) and n.id in G.PARAMS})
+        hrnd.shuffle(names)
+        olds = names[:hrnd.randint(1, 3)]
+        olds += [x for x in hrnd.sample(used, min(len(used), hrnd.randint(0, 2))) if x not in olds]
+        pool = [x for x in (place if hrnd.random() < 0.5 and place else other)]
+        if len(pool) < len(olds):
+            pool = place + other
+        if len(pool) < len(olds):
+            continue
+        cfg, cd = G.gen_config(hrnd, anf)
+        add(base, dict(zip(olds, hrnd.sample(pool, len(olds)))), cfg, cd)
     return progs
 
 
+HYGIENE = {}      # renamed program text -> (base program, mapping)
+
+
 def _replay_doc(src, cd, kind, what, detail, out, oseed=0):
-    return {'oracle_seed': oseed, 'program': src, 'config': cd, 'failure_kind': kind, 'what': what, 'detail': detail,
-            'transformed': unparse(out) if out is not None else None,
-            'replay': 'cd /verif && bin/check C18 --replay <this file>'}
+    doc = {'oracle_seed': oseed, 'program': src, 'config': cd, 'failure_kind': kind, 'what': what, 'detail': detail,
+           'transformed': unparse(out) if out is not None else None,
+           'replay': 'cd /verif && bin/check C18 --replay <this file>'}
+    if src in HYGIENE:
+        doc['renamed_from'] = {'program': HYGIENE[src][0], 'mapping': HYGIENE[src][1]}
+    return doc
 
 
 def check(run):
     run.rule = ('seeded programs (expression depth <= 3, 1-4 statements, if/for/while/with/try nesting <= 2) with a logged '
                 'operation in every operand position x configuration (45% default, else 0-3 random edge patterns + optional '
                 'default tail); streams: model fragment, wide (slices, ** entries, tuple targets, del, try, several with items), '
-                'lazy (BoolOp/IfExp/lambda/comprehension/chained comparison); distinct non-trivial = distinct '
+                'lazy (BoolOp/IfExp/lambda/comprehension/chained comparison), hygiene (variables renamed to the template '
+                'placeholder names and other identifiers of anf.py / templates.py / transformer.py of the tree under test, '
+                'every placeholder in every role); distinct non-trivial = distinct '
                 '(program, configuration) pairs the transformer accepted and changed')
     os.environ['TMPDIR'] = vlib.ensure_dir(os.path.join(vlib.BUILD, 'tmp', str(os.getpid())))
     try:
@@ -416,7 +509,7 @@ def _check(run):
         stream, src, cfg, cd = progs[idx]
         run.count()
         orig = ast.parse(src).body[0]
-        status, fails, out = oracle(src, cfg, run.seed + idx)
+        status, fails, out = oracle(src, cfg, run.seed + idx, renamed_from=HYGIENE.get(src) if stream == 'hygiene' else None)
         stats[status] += 1
         m = mirror(orig, cfg)
         if status == 'accepted':
@@ -426,7 +519,7 @@ def _check(run):
                 stats['changed'] += 1
                 run.nontriv(str(idx))
         if status == 'accepted' and cfg is not None and not fails and stream in ('model', 'gensym', 'fixed') \
-                and idx % 2 == 0 and ast.dump(out) != ast.dump(orig):
+                and idx % 2 == 0 and ast.dump(out) != ast.dump(orig):   # (the hygiene stream is not fed back)
             # two-pass application: the output of this configuration is fed to the default configuration
             progs.append(('twopass', unparse(out) + '\n', None, 'default (second pass; input = output of %s)' % cd))
         for kind, what, detail in fails:
@@ -574,7 +667,9 @@ def replay(path):
     if 'program' in r:
         from malt.pyct.common_transformers import anf   # noqa
         cfg = None if r['config'].startswith('default') else eval(r['config'], {'anf': anf, 'ast': ast, 'ANY': anf.ANY})
-        status, fails, out = oracle(r['program'], cfg, r.get('oracle_seed', 0))
+        rf = r.get('renamed_from')
+        status, fails, out = oracle(r['program'], cfg, r.get('oracle_seed', 0),
+                                    renamed_from=(rf['program'], rf['mapping']) if rf else None)
         print('status now:', status)
         for f in fails:
             print('FAIL', f[0], f[1])
